@@ -173,7 +173,8 @@ class KconfigExpression(Token):
     """
     Kconfig expression parser: regex tokenization + recursive descent with operator precedence.
 
-    Operator precedence (lowest to highest): || , && , = != < > <= >= , !
+    Operator precedence (lowest to highest): || , && , ! , = != < > <= >=
+    (a relation binds tighter than the negation: !A = B is !(A = B), as in the legacy parser and the C tools)
     Produces ParseResults matching pyparsing's infix_notation output structure:
       - single symbol  ->  ParseResults(['FOO'])
       - compound expr  ->  ParseResults([['A', '&&', 'B']])
@@ -265,13 +266,13 @@ class KconfigExpression(Token):
         """
         Parse an AND expression: expr && expr && ...
         """
-        return self._parse_binary_op(tokens, pos_idx, ("&&",), self._parse_cmp)
+        return self._parse_binary_op(tokens, pos_idx, ("&&",), self._parse_unary)
 
     def _parse_cmp(self, tokens: List[str], pos_idx: int) -> Tuple:
         """
         Parse a comparison expression: expr (= | != | < | > | <= | >=) expr.
         """
-        return self._parse_binary_op(tokens, pos_idx, self._cmp_operators, self._parse_unary)
+        return self._parse_binary_op(tokens, pos_idx, self._cmp_operators, self._parse_atom)
 
     def _parse_unary(self, tokens: List[str], pos_idx: int) -> Tuple:
         """
@@ -281,7 +282,7 @@ class KconfigExpression(Token):
             pos_idx += 1
             operand, pos_idx = self._parse_unary(tokens, pos_idx)
             return ["!", operand], pos_idx
-        return self._parse_atom(tokens, pos_idx)
+        return self._parse_cmp(tokens, pos_idx)
 
     def _parse_atom(self, tokens: List[str], pos_idx: int) -> Tuple:
         """
